@@ -81,6 +81,8 @@ def _child(machine, seed, tier, idxs, wfd, t_end, run_timeout):
     for i in idxs:
         if time.time() > t_end:
             break
+        w.write(json.dumps({'start': i}) + '\n')
+        w.flush()
         faulthandler.dump_traceback_later(run_timeout, exit=True)
         t0 = time.time()
         try:
@@ -118,18 +120,25 @@ def _child(machine, seed, tier, idxs, wfd, t_end, run_timeout):
 
 
 def run_batch(machine, seed, tier, nruns, budget_s, nproc, run_timeout=120,
-              stop_on_violation=400, log=print):
+              stop_on_violation=400, log=print, indices=None, crashed=None):
     """Run `nruns` simulated runs (indices 0..nruns-1) on `nproc` processes.
 
     Static round-robin assignment keeps the set of runs a function of
-    (seed, nruns) alone; the wall budget is a back-stop.
+    (seed, nruns) alone; the wall budget is a back-stop.  A worker that
+    dies (the code under test crashed the interpreter, or a run hung) is
+    noted in `crashed` {index: how}; its remaining indices are returned to
+    the caller through `crashed['_left']`.
     """
     t0 = time.time()
     t_end = t0 + budget_s
-    nproc = max(1, min(nproc, nruns))
+    if indices is None:
+        indices = list(range(nruns))
+    if crashed is None:
+        crashed = {}
+    nproc = max(1, min(nproc, len(indices)))
     kids = {}
     for k in range(nproc):
-        idxs = list(range(k, nruns, nproc))
+        idxs = indices[k::nproc]
         r, w = os.pipe()
         pid = os.fork()
         if pid == 0:
@@ -139,7 +148,8 @@ def run_batch(machine, seed, tier, nruns, budget_s, nproc, run_timeout=120,
             finally:
                 os._exit(3)
         os.close(w)
-        kids[r] = {'pid': pid, 'buf': b'', 'done': False, 'last': time.time()}
+        kids[r] = {'pid': pid, 'buf': b'', 'done': False, 'last': time.time(),
+                   'idxs': idxs, 'cur': None, 'finished': set()}
     results, errors = [], []
     stop = False
     while kids and not stop:
@@ -149,12 +159,19 @@ def run_batch(machine, seed, tier, nruns, budget_s, nproc, run_timeout=120,
             k = kids[fd]
             data = os.read(fd, 1 << 20)
             if not data:
-                if not k['done'] and now < t_end:
-                    errors.append(f"worker {k['pid']} died "
-                                  f"(timeout or crash); partial: "
-                                  f"{k['buf'][:200]!r}")
                 os.close(fd)
-                os.waitpid(k['pid'], 0)
+                _, status = os.waitpid(k['pid'], 0)
+                if not k['done'] and now < t_end:
+                    how = (f'signal {os.WTERMSIG(status)}'
+                           if os.WIFSIGNALED(status) else
+                           f'exit {os.WEXITSTATUS(status)}')
+                    if k['cur'] is not None:
+                        crashed[k['cur']] = how
+                    left = [i for i in k['idxs'] if i not in k['finished']
+                            and i != k['cur']]
+                    crashed.setdefault('_left', []).extend(left)
+                    log(f"  worker {k['pid']} died ({how}) during run "
+                        f"{k['cur']}; {len(left)} runs rescheduled")
                 del kids[fd]
                 continue
             k['last'] = now
@@ -165,6 +182,11 @@ def run_batch(machine, seed, tier, nruns, budget_s, nproc, run_timeout=120,
                 if msg.get('done'):
                     k['done'] = True
                     continue
+                if 'start' in msg:
+                    k['cur'] = msg['start']
+                    continue
+                k['finished'].add(msg['index'])
+                k['cur'] = None
                 results.append(msg)
                 if msg.get('violation') and stop_on_violation:
                     nv = sum(1 for r in results if r.get('violation'))
@@ -182,6 +204,47 @@ def run_batch(machine, seed, tier, nruns, budget_s, nproc, run_timeout=120,
         os.close(fd)
     results.sort(key=lambda r: r['index'])
     return results, errors, time.time() - t0
+
+
+def run_isolated(fn, timeout=300):
+    """Run fn() in a forked child; returns ('ok', json-able result) or
+    ('crash', how).  Used wherever the code under test could take the
+    interpreter down (segfault in a compiled kernel) or hang."""
+    r, w = os.pipe()
+    pid = os.fork()
+    if pid == 0:
+        os.close(r)
+        code = 0
+        try:
+            faulthandler.dump_traceback_later(timeout, exit=True)
+            out = fn()
+            with os.fdopen(w, 'w') as f:
+                f.write(json.dumps(out, default=_jd))
+        except BaseException:      # noqa
+            traceback.print_exc()
+            code = 4
+        finally:
+            os._exit(code)
+    os.close(w)
+    chunks = []
+    with os.fdopen(r, 'rb') as f:
+        while True:
+            b = f.read(1 << 20)
+            if not b:
+                break
+            chunks.append(b)
+    _, status = os.waitpid(pid, 0)
+    if os.WIFSIGNALED(status):
+        return 'crash', f'signal {os.WTERMSIG(status)}'
+    if os.WEXITSTATUS(status) != 0:
+        return 'crash', f'exit {os.WEXITSTATUS(status)}'
+    try:
+        return 'ok', json.loads(b''.join(chunks) or b'null')
+    except ValueError:
+        return 'crash', 'no result'
+
+
+CRASH_SIG = lambda pid: f'{pid}/crash/interpreter/run'      # noqa
 
 
 # ------------------------------------------------------------------ shrink
@@ -269,6 +332,21 @@ def write_replay(machine, seed, index, case, tape, strict, res, outdir):
            'seed': seed, 'run': index, 'case': case, 'tape': tape,
            'strict': strict, 'violation': res['violation'],
            'trace_digest': res['digest'], 'minimised': True}
+    with open(path, 'w') as f:
+        json.dump(doc, f, indent=1, sort_keys=True)
+    return path
+
+
+def write_crash_replay(machine, seed, index, case, how, outdir):
+    os.makedirs(outdir, exist_ok=True)
+    path = os.path.join(outdir, f'replay-crash-{seed}-{index}.json')
+    doc = {'property': machine.pid, 'engine': engine.ENGINE_VERSION,
+           'seed': seed, 'run': index, 'case': case, 'tape': {},
+           'strict': False, 'trace_digest': None, 'minimised': False,
+           'violation': {'class': 'crash', 'quantity': 'interpreter',
+                         'op': 'run', 'signature': CRASH_SIG(machine.pid),
+                         'detail': f'the code under test took the '
+                         f'interpreter down or hung ({how})'}}
     with open(path, 'w') as f:
         json.dump(doc, f, indent=1, sort_keys=True)
     return path
@@ -410,22 +488,66 @@ def check(machine, tier, seed, log=print):
     budget = float(os.environ.get('VERIF_BUDGET_S', plan['budget_s']))
     log(f"[{machine.pid}] tier={tier} VERIF_SEED={seed} runs<={nruns} "
         f"budget={budget:.0f}s procs={nproc}")
-    machine.warmup()
     errors = []
+    outdir = os.path.join(VERIF, 'out', machine.pid)
+    crash_lines = []
+    # canary: the warm-up (a few plain solver calls) in a child, so that a
+    # change that crashes compiled kernels does not take the check down
+    st, how = run_isolated(lambda: (machine.warmup(), 'warm')[1], 600)
+    if st == 'crash':
+        path = write_crash_replay(machine, seed, -1, {'warmup': True}, how,
+                                  outdir)
+        log(f"  the interpreter crashed during warm-up ({how})")
+        print(f"VIOLATION property={machine.pid} replay={path}")
+        return 1
+    machine.warmup()
 
-    # determinism self-check: first seeds twice, digests must agree
-    for i in range(plan.get('det_runs', 3)):
+    # determinism self-check: first seeds twice (each in its own process),
+    # digests must agree
+    def _twice(i):
         rs, case = gen_case(machine, seed, tier, i)
         a = execute(machine, case, rs)
         b = execute(machine, case, rs)
-        if a['digest'] != b['digest'] or a['error'] or b['error']:
+        return [a['digest'], b['digest'], a['error'] or b['error']]
+    for i in range(plan.get('det_runs', 3)):
+        st, out = run_isolated(lambda i=i: _twice(i),
+                               plan.get('run_timeout', 180) * 2)
+        if st == 'ok' and (out[0] != out[1] or out[2]):
             errors.append(f'nondeterminism or error on run {i}: '
-                          f"{a['digest']} vs {b['digest']} "
-                          f"{a['error'] or b['error'] or ''}")
+                          f'{out[0]} vs {out[1]} {out[2] or ""}')
+    crashed = {}
     results, errs, wall = run_batch(
         machine, seed, tier, nruns, budget, nproc,
-        run_timeout=plan.get('run_timeout', 180), log=log)
+        run_timeout=plan.get('run_timeout', 180), log=log, crashed=crashed)
     errors += errs
+    for _ in range(3):          # reschedule what dead workers left behind
+        left = crashed.pop('_left', [])
+        if not left:
+            break
+        more, errs, _w = run_batch(
+            machine, seed, tier, nruns, budget, nproc,
+            run_timeout=plan.get('run_timeout', 180), log=log,
+            indices=left, crashed=crashed)
+        results += more
+        errors += errs
+    results.sort(key=lambda r: r['index'])
+    # runs during which a worker died: confirm in isolation
+    for i, how in sorted((k, v) for k, v in crashed.items()
+                         if k != '_left')[:4]:
+        rs, case = gen_case(machine, seed, tier, i)
+        st, out = run_isolated(lambda: execute(machine, case, rs),
+                               plan.get('run_timeout', 180))
+        if st == 'crash':
+            path = write_crash_replay(machine, rs, i, case, out, outdir)
+            log(f"  run {i} crashes the interpreter / hangs ({out}), "
+                f"reproduced in isolation")
+            crash_lines.append(
+                f"VIOLATION property={machine.pid} replay={path}")
+        else:
+            errors.append(f'run {i}: worker died ({how}) but the run '
+                          f'completes in isolation')
+            out['index'] = i
+            results.append(out)
     errors += [f"run {r['index']}: {r['error']}" for r in results
                if r.get('error')]
     # seams the check depends on must have been hit
@@ -439,8 +561,7 @@ def check(machine, tier, seed, log=print):
 
     # violations -> minimise, replay, classify
     known = load_known(machine.pid)
-    outdir = os.path.join(VERIF, 'out', machine.pid)
-    lines, nviol, known_hit = [], 0, {}
+    lines, nviol, known_hit = list(crash_lines), len(crash_lines), {}
     groups = {}
     for r in results:
         if r.get('violation'):
@@ -518,6 +639,27 @@ def check(machine, tier, seed, log=print):
 
 
 def do_replay(machine, path, log=print):
+    doc = json.load(open(path))
+    if doc['violation']['class'] == 'crash':
+        if doc['case'].get('warmup'):
+            st, out = run_isolated(lambda: (machine.warmup(), 'warm')[1],
+                                   600)
+        else:
+            st, out = run_isolated(
+                lambda: (machine.warmup(), execute(
+                    machine, doc['case'], doc['seed']))[1], 900)
+        if st == 'crash':
+            print(f"REPLAY-OK property={machine.pid} "
+                  f"signature={doc['violation']['signature']} ({out})")
+            print(f"VIOLATION property={machine.pid} replay={path}")
+            return 1
+        v = out.get('violation') if isinstance(out, dict) else None
+        print(f"REPLAY-DIFFERS expected a crash, got "
+              f"{v['signature'] if v else 'a clean run'}")
+        if v:
+            print(f"VIOLATION property={machine.pid} replay={path}")
+            return 1
+        return 0
     machine.warmup()
     ok, res, doc = replay_file(machine, path)
     v = res.get('violation')
